@@ -117,7 +117,8 @@ def cut3 (s : String) : String × String × String :=
   | _ => (s, "", "")
 
 def run (inp obs : List String) : Verdict :=
-  let sw := fieldNat inp "sw"
+  -- the part switches: from the call sequence when the harness reports them, else from the recipe
+  let sw := if field obs "SW" ≠ "" then fieldNat obs "SW" else fieldNat inp "sw"
   let tree := parseTreeHex (field obs "TREE")
   let gtree := parseTreeHex (field obs "GTREE")
   let req := parseReq sw (field obs "REQ")
